@@ -30,6 +30,16 @@ def run(chk):
     r2 = chk.rule("C08.R2", "check-then-act is atomic: a write to a guarded deque is in the same lock hold as the reads it depends on")
     r3 = chk.rule("C08.R3", "ownership by removal: _after_remove / hand-over only for objects this thread removed from a deque within a hold")
     r4 = chk.rule("C08.R4", "no re-entrancy: nothing called while the lock is held can acquire it again; the lock is only used via `with`")
+    # "removed by this thread" means removed by *identity*: deque.remove(obj) compares with ==, so the pooled objects
+    # must not define value equality (two clients for the same server would be interchangeable and one thread would
+    # take the other's connection out of the books)
+    pooled_classes = [c for c in prog.classes.values() if c.name == "Client" or "Client" in [b for b in getattr(c, "bases", [])]]
+    for c in pooled_classes:
+        for special in ("__eq__", "__ne__", "__hash__", "__lt__"):
+            mth = c.methods.get(special)
+            if mth is not None and mth.cls is c:
+                r3.fail("%s:%s-defined" % (c.name, special), "%s defines %s: the pool finds the object to release or destroy with deque.remove(obj), which uses ==; with value equality a thread can remove another thread's (equal) connection from the books and the pool no longer knows which connections are in use" % (c.name, special), fn=mth, node=mth.node)
+    r3.ok("pooled client classes (%s) keep identity equality" % ", ".join(sorted(c.name for c in pooled_classes)))
     methods = [m for m in pool.methods.values() if m.name != "__init__"]
     n_acc = 0
     lock_holders = set()
